@@ -64,6 +64,8 @@ CONSTANTS
   Kinds,            \* labels of the thrust kind (frame / maneuver type), carried to the harness
   BurnChoice,       \* "closed" (1 <= ts < te <= H) | "open" (te beyond the horizon) | "both"
   WithNoBurn,       \* also pose "no burn"
+  FirstStart,       \* earliest burn start: 1, or 0 = the scenario start itself
+  OnlyFirstStart,   \* TRUE: pose only burns that start at FirstStart
   EndNeedsLanding,  \* deviation D10 (as coded): the end of the burn is no root, only a landing
   EndMasksStart,    \* deviation D10b (as coded): the exact-equality zero at the end hides the start
   EmitTag           \* "" = do not print behaviours
@@ -78,7 +80,7 @@ KindsOne     == {"eci"}
 VARIABLES
   pc,      \* control state
   law,     \* [v0, g, a]
-  burn,    \* [ts, te, kind]; ts = 0 means "no burn"
+  burn,    \* [ts, te, kind]; kind = "none" means "no burn"
   dt, nsteps, hor,   \* step length, number of steps, horizon of this behaviour
   X0,      \* initial batch (sequence of columns)
   now, X,  \* agent time and state (Agent._time, Agent.eci_state)
@@ -94,7 +96,7 @@ vars == <<pc, law, burn, dt, nsteps, hor, X0, now, X, queue, thrust, call, it, f
 
 NoBurn  == [ts |-> 0, te |-> 0, kind |-> "none"]
 NoCall  == [kind |-> "none", times |-> <<>>, X0 |-> <<>>, q |-> 0]
-HasBurn == burn.ts > 0
+HasBurn == burn.kind # "none"
 G == law[2]
 A == law[3]
 Min(a, b) == IF a < b THEN a ELSE b
@@ -183,8 +185,9 @@ PoseGrid ==
   /\ UNCHANGED <<law, burn, X0, now, X, queue, thrust, call, it, fresh, rem, outs, hist, on>>
 
 BurnIntervals ==
-  {<<s, e>> \in (1..hor) \X (1..(hor + 1)) :
+  {<<s, e>> \in (FirstStart..hor) \X (1..(hor + 1)) :
       /\ s < e /\ s < hor
+      /\ (OnlyFirstStart => s = FirstStart)
       /\ \/ BurnChoice \in {"closed", "both"} /\ e <= hor
          \/ BurnChoice \in {"open", "both"} /\ e = hor + 1}
 
